@@ -136,6 +136,7 @@ theorem exec_noRelax :
       simp [progNoRelax] at hn
       have hf : (fun l' => exec body c l') = (fun l' => exec body c' l') := funext (fun l' => ih hn.2 c c' h l')
       simp only [exec, eval_noRelax h l coll hn.1, hf]
+  | effect s => intro _ c c' _ l; simp [exec]
   | unknown s => intro _ c c' _ l; simp [exec]
 
 theorem checkResult_no_accept (tag : Option String) (l : Locals) (s : Sig) :
@@ -245,6 +246,7 @@ theorem rejectOnly_no_accept :
       · exact iter_no_accept _ _ _ (fun l' => ih hr c l') _ _
       · simp
       · simp
+  | effect s => intro _ c l; simp [exec]
   | unknown s => intro hr; simp [rejectOnly] at hr
 
 theorem scopeExit_append (pre l : Locals) : scopeExit l (pre ++ l) = l := by
@@ -368,6 +370,7 @@ theorem noAssign_suffix :
         exact ⟨rfl, [(x, v)], rfl⟩
   | forEach v coll body _ => intro hn; simp [noAssign] at hn
   | forIdx v coll body _ => intro hn; simp [noAssign] at hn
+  | effect s => intro _ c l h; simp [exec, passing] at h
   | unknown s => intro _ c l h; simp [exec, passing] at h
 
 theorem eval_noVar (c : Ctx) (l l' : Locals) :
@@ -635,6 +638,7 @@ theorem relax_mono :
   | assign x e => intro hr c c' h l; simp [relaxOK] at hr; exact Good.of_eq (by simp [exec, eval_noRelax h l e hr])
   | assign2 x y e => intro hr c c' h l; simp [relaxOK] at hr; exact Good.of_eq (by simp [exec, eval_noRelax h l e hr])
   | unknown s => intro hr; simp [relaxOK] at hr
+  | effect s => intro _ c c' _ l; exact Good.of_eq (by simp [exec])
   | sub x params args body _ =>
       intro hr c c' h l
       simp [relaxOK] at hr
